@@ -69,16 +69,18 @@ def conn (impl : String) : P Verdict := do
     totalLen (segsOf true ds) ≤ maxBufferedHeadBytes && totalLen (segsOf false ds) ≤ maxBufferedHeadBytes &&
     !(a == b && pa == pb)
   let spec := if specified then some (showRun ps (specConn parsers c ds)) else none
-  let kf := if specified then
-      (if decide (KF.C09.seqWrap c ds) then ["KF.C09.seqWrap"] else []) ++
-      (if decide (KF.C09.duplicateSegment c ds) then ["KF.C09.duplicateSegment"] else []) ++
-      (if decide (KF.C09.gapAssembly c ds) then ["KF.C09.gapAssembly"] else [])
-    else []
+  -- input features behind the repaired findings (labels only; every specified case is compared)
+  let feat := if specified then
+      (if decide (¬ NoWrap c.isnC (segsOf true ds) ∨ ¬ NoWrap c.isnS (segsOf false ds)) then "w" else "") ++
+      (if hasOverlap c.isnC (segsOf true ds) || hasOverlap c.isnS (segsOf false ds) then "d" else "") ++
+      (if !AlwaysContiguous c.isnC (segsOf true ds) || !AlwaysContiguous c.isnS (segsOf false ds) then "g" else "")
+    else ""
+  let kf : List String := []
   let nC := (segsOf true ds).length
   let nS := (segsOf false ds).length
   let big := totalLen (segsOf true ds) > maxBufferedHeadBytes || totalLen (segsOf false ds) > maxBufferedHeadBytes
   pure (verdictOf impl (showRun ps os) spec kf
-    s!"conn:{if specified then "spec" else "unspec"}:c{if nC > 4 then "5+" else toString nC}s{if nS > 4 then "5+" else toString nS}:r{countReports os}{if big then ":cap" else ""}{if kf.isEmpty then "" else ":kf"}")
+    s!"conn:{if specified then "spec" else "unspec"}:c{if nC > 4 then "5+" else toString nC}s{if nS > 4 then "5+" else toString nS}:r{countReports os}{if big then ":cap" else ""}{if feat.isEmpty then "" else ":x" ++ feat}")
 
 def handlers : List (String × (String → P Verdict)) :=
   [("C09.pkts", pkts), ("C09.conn", conn)]
